@@ -138,10 +138,36 @@ def determinism(props, units):
     return 0 if not bad else 2
 
 
+def seeds(props, seed_list=(1, 2, 3, 4, 5)):
+    """False-alarm guard: the quick check of every property under several
+    VERIF_SEEDs on the unchanged tree (outputs redirected, evidence untouched)."""
+    bad = 0
+    for prop in props:
+        for sd in seed_list:
+            out_dir = tempfile.mkdtemp(prefix="h5seeds_")
+            try:
+                envv = dict(os.environ, VERIF_SEED=str(sd), VERIF_OUT_DIR=out_dir)
+                c = subprocess.run([sys.executable, "-m", "sim", "check", prop, "--tier", "quick", "--no-selfcheck"],
+                                   cwd=env.VERIF_DIR, env=envv, capture_output=True, text=True)
+                last = [ln for ln in c.stdout.splitlines() if ln.startswith(prop + ":")]
+                print("%s seed=%d exit=%d %s" % (prop, sd, c.returncode, last[-1][:160] if last else ""), flush=True)
+                if c.returncode != 0:
+                    bad += 1
+                    for ln in c.stdout.splitlines():
+                        if ln.startswith(("VIOLATION", "HARNESS", "  oracle", "  minimised")):
+                            print("   " + ln[:600])
+            finally:
+                shutil.rmtree(out_dir, ignore_errors=True)
+    print("seeds: %d alarming runs" % bad)
+    return 0 if not bad else 1
+
+
 def main(args):
     props = [p for p in args.props.split(",") if p]
     if args.what == "sensitivity":
         return sensitivity(props, only=getattr(args, "only", None))
+    if args.what == "seeds":
+        return seeds(props)
     if args.what == "seeded":
         return seeded(props, only=getattr(args, "only", None))
     return determinism(props, args.units)
